@@ -13,6 +13,7 @@ def run(run):
     q = run.tier == "quick"
     run.assumptions += [
         "expressions / conditions are arbitrary functions of the record (the theorems do not depend on csvq's evaluator); the correspondence stream uses comparison, AND/OR/NOT, IS NULL and integer arithmetic on integer / NULL / plain-string cells",
+        "statements executed inside nested blocks (IF, WHILE, function bodies, PREPARE/EXECUTE) have the semantics of the same statement at the top level: the model has one level of tables (publication to the DECLARING block - ReplaceTemporaryTable - is observed by the stream, not proved)",
         "REPLACE key equivalence: any Boolean relation in the theorems; SortValues.EquivalentTo (C07 model) in the driver",
         "known finding F41 - property-text reading 'REPLACE appends the OTHERS': proved only when the given rows have pairwise non-equivalent keys (replace_appended_keys_are_new_partial); the code appends a later given row whose key exists (replace_appended_keys_are_new_counterexample compiles on every run; the corpus witness REPLACE INTO tw (id, v) USING (id) VALUES (1,'b'),(1,'c') on tw = (1,a),(2,x) is run first for every seed and must still fail the law replace_appended_row_with_existing_key); the model describes the code as it behaves",
     ]
@@ -23,7 +24,7 @@ def run(run):
             run.stream("c05", 20000, seed_offset=k)
     return run.finish(
         level="proof",
-        rule="corpus first (F41 witness, F4 witness), then statement sequences of 1-30 statements (state carried, COMMIT interleaved) over 1-3 tables per sequence, file-backed CSV and temporary (DECLARE VIEW), 0-400 rows, @@CPU 1-4: INSERT VALUES / INSERT SELECT, single- and multi-table UPDATE / DELETE (cross join and JOIN ON, one or two targets), REPLACE with 0-44 unmatched rows and keys id / data column / both, ALTER ADD (FIRST/LAST/BEFORE/AFTER, DEFAULT expr) / DROP / RENAME; cells integers, NULL, plain strings; conditions from =,<>,<,<=,>,>=, IS NULL, %, AND/OR/NOT; non-trivial = distinct (statement kind, outcome, storage, size band, cpu, position in sequence, count band) signature",
+        rule="corpus first (F41 witness; every statement kind against top-level temporary tables and a file table executed inside IF / nested IF-ELSE / WHILE / a user-defined function body / PREPARE-EXECUTE, the table read back after the block ended; F4 witness), then statement sequences of 1-30 statements (state carried, COMMIT interleaved) over 1-3 tables per sequence, file-backed CSV and temporary (DECLARE VIEW), 0-400 rows, @@CPU 1-4: INSERT VALUES / INSERT SELECT, single- and multi-table UPDATE / DELETE (cross join and JOIN ON, one or two targets), REPLACE (VALUES and SELECT source) with 0-44 unmatched rows and keys id / data column / both, VALUES cells that are scalar sub-queries reading a cell of another table, a quarter of the statements wrapped in a nested block / function / prepared statement, ALTER ADD (FIRST/LAST/BEFORE/AFTER, DEFAULT expr) / DROP / RENAME; cells integers, NULL, plain strings; conditions from =,<>,<,<=,>,>=, IS NULL, %, AND/OR/NOT; non-trivial = distinct (statement kind, outcome, storage, size band, cpu, position in sequence, count band) signature",
         trusted_base=BASE_TRUST + ["C06 comparison/arithmetic model and C07 SortVal.equiv used by the driver's expression evaluator"],
         checker_cmd="cd /verif/lean && lake build Csvq.Props.C05 && lake env lean <#print axioms for every theorem>",
     )
